@@ -37,6 +37,16 @@ type Op struct {
 	N   int    `json:"n,omitempty"`  // crashat/powerat: which mutating call of the next op
 	Cut int    `json:"cut,omitempty"`
 	Dir string `json:"dir,omitempty"`
+	S   int    `json:"s,omitempty"` // scan id
+	// Inject runs operations of "another goroutine" at the yield points of Compact / Backup
+	// (the points where they hold no database lock).
+	Inject []Inject `json:"inject,omitempty"`
+}
+
+// Inject places operations at the At-th yield point (1-based) of a maintenance call.
+type Inject struct {
+	At  int  `json:"at"`
+	Ops []Op `json:"ops"`
 }
 
 // Program is a configuration plus a list of steps.
@@ -150,6 +160,11 @@ type Sess struct {
 	// EvIndex counts inv/ret events (image de-duplication epoch).
 	EvIndex int
 	mu      sync.Mutex
+	scans   map[int]*pogreb.ItemIterator
+	// AfterInjected is called after every injected operation (fault images, probes).
+	AfterInjected func(o Op)
+	Yields        int // yield points seen in the last maintenance call
+	lastDone      bool
 }
 
 // Options builds pogreb options for a root file system.
@@ -330,6 +345,70 @@ func (s *Sess) Do(o Op) error {
 		inv["k"], inv["buf"] = s.use(key), o.Buf
 	case "backup":
 		inv["dir"] = o.Dir
+	case "next":
+		inv["scan"] = o.S
+	case "readall":
+		s.ReadAll()
+		return nil
+	case "drain":
+		for i := 0; i < 100000; i++ {
+			s.mu.Lock()
+			it := s.scans[o.S]
+			s.mu.Unlock()
+			if it == nil {
+				return nil
+			}
+			before := s.lastDone
+			s.lastDone = false
+			if err := s.Do(Op{Op: "next", S: o.S, T: o.T}); err != nil {
+				return err
+			}
+			if s.lastDone {
+				return nil
+			}
+			_ = before
+		}
+		return fmt.Errorf("drain: scan %d does not terminate", o.S)
+	case "backup_open":
+		db2, obs := OpenObserved(s.Cfg, s.Root, o.Dir, s.Universe)
+		ev := obs.Event("backup_opened")
+		ev["dir"] = o.Dir
+		s.R.Emit(ev)
+		if db2 != nil {
+			db2.Close()
+		}
+		return nil
+	case "scan_start":
+		s.mu.Lock()
+		if s.scans == nil {
+			s.scans = map[int]*pogreb.ItemIterator{}
+		}
+		s.R.Emit(Ev{"e": "scan_start", "s": o.S})
+		s.scans[o.S] = db.Items()
+		s.mu.Unlock()
+		return nil
+	}
+	if len(o.Inject) > 0 || o.Op == "compact" || o.Op == "backup" {
+		n := 0
+		prefix := o.Op + "."
+		pogreb.VerifYield = func(point string) {
+			if !strings.HasPrefix(point, prefix) {
+				return
+			}
+			n++
+			s.Yields = n
+			for _, in := range o.Inject {
+				if in.At == n {
+					for _, io := range in.Ops {
+						s.Do(io)
+						if s.AfterInjected != nil {
+							s.AfterInjected(io)
+						}
+					}
+				}
+			}
+		}
+		defer func() { pogreb.VerifYield = nil }()
 	}
 	s.mu.Lock()
 	s.EvIndex++
@@ -401,6 +480,17 @@ func (s *Sess) Do(o Op) error {
 			var cr pogreb.CompactionResult
 			cr, err = db.Compact()
 			ret["segments"], ret["records"] = cr.CompactedSegments, cr.ReclaimedRecords
+		case "next":
+			s.mu.Lock()
+			it := s.scans[o.S]
+			s.mu.Unlock()
+			var k, v []byte
+			k, v, err = it.Next()
+			ret["done"], ret["k"], ret["v"] = false, Token(k), Token(v)
+			if err == pogreb.ErrIterationDone {
+				ret["done"], err = true, nil
+				s.lastDone = true
+			}
 		case "close":
 			err = db.Close()
 		case "backup":
